@@ -473,6 +473,19 @@ def rule_forward_closure(ctx, cfg, F):
             else:
                 R.violate("%s:forward-count" % f.path, "forwarding closure does not send exactly once per message (%d send sites)" % len(sends), f.path, f.loc(0), config=cfg)
     R.count("forward_closures[%s]" % cfg, n)
+    # the forwarding closure runs on the single router thread: the queue it forwards into must never make it wait
+    for f in sorted(F.fns.values(), key=lambda x: x.path):
+        if not f.path.startswith("router::"):
+            continue
+        bounded = [(b, t) for b, t in f.calls() if strip_generics(callee_name(t)) in ("crossbeam_channel::bounded", "std::sync::mpsc::sync_channel", "crossbeam_channel::channel::bounded")]
+        if not bounded:
+            continue
+        tr = Tracer(f)
+        for b, t in f.calls():
+            nm = strip_generics(callee_name(t))
+            if nm.startswith("router::") and any(r.kind == "call" and any(r.block == bb for bb, _ in bounded) for a in t["args"] for r in tr.roots_of_operand(a)):
+                R.violate("%s:forwarding-queue-bounded" % strip_generics(f.path), "%s hands the sender of a BOUNDED queue to %s: once the consumer lags, the forwarding closure blocks the router thread "
+                          "and every other route stops receiving" % (f.path, nm), f.path, f.loc(b), config=cfg)
 
 
 REORDER = ("sort", "sort_by", "sort_by_key", "sort_unstable", "sort_unstable_by", "sort_unstable_by_key", "sort_by_cached_key", "reverse", "swap", "rotate_left", "rotate_right",
